@@ -30,6 +30,19 @@ def gen_case(rng, cfg, idx):
     return {"prog": b.prog, "base": base}
 
 
+def same_values(a, b):
+    """Exact, except that float results may differ by <= 4 ulp: NumPy's own transcendental loops (sinh, exp, ...) give last-bit
+    different results for the same numbers depending on the memory layout / SIMD path of the operands (seen at 1 ulp in 3 of
+    300000 thorough histories), so NumPy run on differently laid-out shadow arrays is itself only that precise."""
+    if np.array_equal(a, b, equal_nan=True):
+        return True
+    if a.dtype.kind != "f":
+        return False
+    with np.errstate(all="ignore"):
+        tol = 4 * np.spacing(np.maximum(np.abs(a), np.abs(b)))
+        return bool(np.all((np.abs(a - b) <= tol) | ((a != a) & (b != b)) | (a == b)))
+
+
 def compare_state(it, sh, ids, consts, i, st, cnt, viol, check_base=True):
     env = it.env
     names = [n for n, v in env.items() if mgrun.is_tensor(v)]
@@ -39,7 +52,7 @@ def compare_state(it, sh, ids, consts, i, st, cnt, viol, check_base=True):
         if s is None:
             continue
         cnt["value_checks"] = cnt.get("value_checks", 0) + 1
-        if t.data.dtype != s.dtype or t.data.shape != s.shape or not np.array_equal(t.data, s, equal_nan=True):
+        if t.data.dtype != s.dtype or t.data.shape != s.shape or not same_values(t.data, s):
             viol.append({"monitor": "O-np", "mech": f"value-after-{st['k']}",
                          "msg": f"after stmt {i} ({st['k']} {st.get('fn', st.get('op', ''))}): {n} = {t.data.tolist()} ({t.data.dtype}) but NumPy has {s.tolist()} ({s.dtype})"})
             return False
